@@ -119,6 +119,7 @@ sfd_listener_accept(void *arg, nng_aio *aio)
 {
 	sfd_listener *l = arg;
 
+	nni_aio_reset(aio);
 	nni_mtx_lock(&l->mtx);
 	if (!nni_aio_start(aio, sfd_cancel_accept, l)) {
 		nni_mtx_unlock(&l->mtx);
